@@ -1,0 +1,59 @@
+//go:build verif
+
+// verif_hooks_config.go: accessors for the external verification harness (/verif), group "config"
+// (C24 runtime reconfiguration, C28 start paths, C30 TLS). Compiled only with -tags verif; adds no
+// behaviour to the package.
+package absnfs
+
+import "time"
+
+// VerifExportPort returns the port of the server started by Export (0 if none).
+func (n *AbsfsNFS) VerifExportPort() int {
+	if n.exportServer == nil {
+		return 0
+	}
+	return n.exportServer.GetPort()
+}
+
+// VerifInForce is the configuration the server's components actually run with, as opposed to the
+// option snapshots GetExportOptions reports.
+type VerifInForce struct {
+	AttrCacheSize      int
+	AttrCacheTTL       time.Duration
+	NegativeEnabled    bool
+	NegativeTTL        time.Duration
+	DirCachePresent    bool
+	DirCacheTTL        time.Duration
+	DirCacheMaxEntries int
+	DirCacheMaxDirSize int
+	PoolPresent        bool
+	PoolWorkers        int
+	LimiterPresent     bool
+	LimiterConfig      RateLimiterConfig
+}
+
+// VerifConfigInForce reads the parameters held by the caches, the worker pool and the rate limiter.
+func (n *AbsfsNFS) VerifConfigInForce() VerifInForce {
+	var v VerifInForce
+	if c := n.attrCache; c != nil {
+		c.mu.RLock()
+		v.AttrCacheSize, v.AttrCacheTTL = c.maxSize, c.ttl
+		v.NegativeEnabled, v.NegativeTTL = c.enableNegative, c.negativeTTL
+		c.mu.RUnlock()
+	}
+	if d := n.dirCache; d != nil {
+		d.mu.RLock()
+		v.DirCachePresent = true
+		v.DirCacheTTL, v.DirCacheMaxEntries, v.DirCacheMaxDirSize = d.timeout, d.maxEntries, d.maxDirSize
+		d.mu.RUnlock()
+	}
+	if p := n.workerPool; p != nil {
+		p.resizeMu.Lock()
+		v.PoolPresent, v.PoolWorkers = true, p.maxWorkers
+		p.resizeMu.Unlock()
+	}
+	if rl := n.currentRateLimiter(); rl != nil {
+		v.LimiterPresent, v.LimiterConfig = true, rl.config
+	}
+	return v
+}
